@@ -24,6 +24,12 @@ THEOREMS = [
     "Wild.Hash.sysv_complete_distinct",
     "Wild.Hash.gnu_chain_terminates",
     "Wild.Hash.sysv_chain_terminates",
+    "Wild.Hash.gnu_lookup_total_of_closed",
+    "Wild.Hash.gnu_builder_closed",
+    "Wild.Hash.gnu_absent_notFound",
+    "Wild.Hash.sysv_lookup_total_of_closed",
+    "Wild.Hash.sysv_builder_closed",
+    "Wild.Hash.sysv_absent_notFound",
     "Wild.Hash.sorted_by_bucket_of_sort",
     "Wild.Hash.sortSyms_perm",
     "Wild.Hash.elfHash_eq_gabiHash",
